@@ -15,6 +15,7 @@
 -/
 import Emu.Bt.GoOps
 import Emu.Gcs.GoOps
+import Emu.Proofs.MergeInPlace
 
 namespace Emu.Props.C20
 open Emu.GoSem
@@ -128,6 +129,12 @@ theorem greaterThanPrefix_never_faults (item pfx : List Nat) : ∃ r, Gcs.GoOps.
   · exact ⟨item, rfl⟩
   · exact goSlice_ok _ _ _ (by omega) (by omega) (by omega)
 
+theorem lessThanPrefix_never_faults (item pfx : List Nat) : ∃ r, Gcs.GoOps.lessThanPrefixSlice item pfx = .ok r := by
+  unfold Gcs.GoOps.lessThanPrefixSlice
+  split
+  · exact goSlice_ok _ _ _ (by omega) (by omega) (by omega)
+  · exact ⟨pfx, rfl⟩
+
 /-- resumable upload: any `Content-Range` start, any buffer -/
 theorem resumeTruncate_never_faults (data : List Nat) (lo : Int) : ∃ r, Gcs.GoOps.resumeTruncate data lo = .ok r := by
   unfold Gcs.GoOps.resumeTruncate
@@ -169,6 +176,18 @@ theorem contentIdFirst_never_faults (cid : List Nat) : ∃ r, Gcs.GoOps.contentI
       | cons _ _ => simp
     obtain ⟨c, hc⟩ := goIndex_ok cid 0 (by omega) (by omega)
     exact ⟨some c, by simp [hc, bind, Except.bind, pure, Except.pure]⟩
+
+/-- `mergeSimpleRanges`' in-place loop (`srs[last]`, `srs[i]`, the two writes and `srs[:last+1]`,
+    all on the array it is still reading): never faults, for any merge function and any array. -/
+theorem mergeSimpleRanges_never_faults {α : Type} (merge : α → α → Option α) (arr : List α) :
+    ∃ r, Emu.Proofs.MergeInPlace.mergeInPlace merge arr = .ok r :=
+  ⟨_, Emu.Proofs.MergeInPlace.mergeInPlace_eq merge arr⟩
+
+/-- `scrubRow` / `scrubFam` compact their slice in place with a write index trailing the range loop
+    (`xs[wIdx] = x; wIdx++; xs = xs[:wIdx]`): never faults, for any keep-function and any slice. -/
+theorem scrub_compaction_never_faults {α : Type} (g : α → Option α) (arr : List α) :
+    ∃ r, Emu.Proofs.MergeInPlace.compactInPlace g arr = .ok r :=
+  ⟨_, Emu.Proofs.MergeInPlace.compactInPlace_eq g arr⟩
 
 /-- Non-vacuity: an inverted search window, an out-of-order cell list, extreme bounds. -/
 example : Bt.GoOps.deleteRange [5, 9, 1, 7] 8 2 = .ok [5, 9, 1, 7] ∧ Bt.GoOps.deleteRange [9, 7, 5, 1] 5 8 = .ok [9, 1]
